@@ -54,6 +54,14 @@ where
     }
 }
 
+/// Map a signed value to a non-negative one which needs, as an unsigned integer,
+/// exactly as many bytes as `v` needs as a two's complement integer
+/// (sign bit included, negative values too).
+fn signed_size_key(v: i64) -> i64 {
+    let magnitude = if v < 0 { !v } else { v };
+    magnitude.checked_mul(2).unwrap_or(i64::MAX)
+}
+
 #[derive(Default, Debug)]
 pub enum ValueCounter<T> {
     #[default]
@@ -242,11 +250,11 @@ impl<PN: PropertyName> Property<PN> {
             } => match entry.value(name).as_ref() {
                 Value::Signed(value) => {
                     counter.process(*value);
-                    size.process(*value);
+                    size.process(signed_size_key(*value));
                 }
                 Value::SignedWord(value) => {
                     counter.process(value.get());
-                    size.process(value.get());
+                    size.process(signed_size_key(value.get()));
                 }
                 _ => {
                     panic!("Value type doesn't correspond to property");
